@@ -156,6 +156,11 @@ func TestC15(t *testing.T) {
 	excluded := 0
 	c.Check(t, func(rt *rapid.T) {
 		cfg, nm, vc, _ := defaultXCfg(rt, avoidFor(avoidAll, []string{"lua"}))
+		cfg.PostProgram = nil
+		if rapid.IntRange(0, 4).Draw(rt, "inline_variant") == 0 {
+			// the same inline object name with another layout in a second packet
+			cfg.PostProgram = func(p *dsl.Program) { dsl.ShareInlineVariant(rt, p) }
+		}
 		k := genXCase(rt, cfg, nm, vc, false)
 		// the dissector is for the root packet
 		var msgs []xMsg
